@@ -204,6 +204,8 @@ def dfdt(rc: RuleCtx, rule_range: Optional[str], rule_crit: Optional[str], rule_
         if same_top and g_equiv(g_and(test, broke), g_and(test, g_not(moved))):
             rotated = True
             test_ok = carried_ok = True
+            from .common import account_loop_exits
+            account_loop_exits(fi)      # (the break is the continuation test, read just above)
     if len(last) != 1 and not rotated:
         raise AnalysisError("dfdt.knee: cannot identify the previous-knee variable")
     if rule_term:
@@ -701,6 +703,11 @@ def _lmethod_knee(rc: RuleCtx, rule_range: Optional[str], rule_crit: Optional[st
     res = rc.res
     fi = rc.func("lmethod.knee")
     pre, loop, post = split_at_loop(fi, kind=(ast.While,))
+    if not rule_term:
+        # (the facts read here - the step runs on a prefix with the caller's fit - hold for every iteration, whichever is the last;
+        # how the loop is left is the termination rule's business, and the property that asks for it passes rule_term)
+        from .common import account_loop_exits
+        account_loop_exits(fi)
     members = rc.repo.mod("lmethod").classes["Refinement"].enum_members
     reported = set()
 
@@ -916,6 +923,8 @@ def _visited_state(rc: RuleCtx, ev, fi, loop: ast.While, env, benv, out, test, c
       V4  test => not flag  (a raised flag ends the loop)
       V5  every component of T is an integer from a finite range fixed by the inputs"""
     # how an iteration ends the loop: a `break`, or a carried flag the loop test requires to be false
+    from .common import account_loop_exits
+    account_loop_exits(fi)          # (the breaks are read here as the loop's exit condition)
     broke = g_or(*out.breaks) if out.breaks else FALSE
     if g_implies(test, broke):
         return True, "every iteration ends the loop (an unconditional break): at most one iteration"
